@@ -2,8 +2,9 @@
 Theorems: props/C04*.v (totality / fuel bounds of the exception-faithful parser models).
 Direct oracle: mutated and structure-corrupted inputs through every opener, then save/delete through
 whatever was opened, in a watchdog process pool; only MutagenError may escape; work is bounded."""
-import io, os, sys, glob, time, signal, random, traceback, multiprocessing
+import io, os, re, sys, glob, time, signal, random, struct, hashlib, traceback, multiprocessing
 import common
+import c04_loaders
 
 PROP = "C04"
 PROP_FILES = sorted(os.path.relpath(p, common.COQ) for p in glob.glob(os.path.join(common.COQ, "props", "C04*.v")))
@@ -134,6 +135,11 @@ def contract(opener, data, limit_s=5.0):
 OPENER_NAMES = ["MP3", "TrueAudio", "OggTheora", "OggSpeex", "OggVorbis", "OggFLAC", "FLAC", "AIFF", "APEv2File", "MP4", "ID3FileType", "WavPack",
                 "Musepack", "MonkeysAudio", "OptimFROG", "ASF", "OggOpus", "AC3", "TAK", "DSF", "EasyMP3", "EasyID3FileType", "EasyTrueAudio", "EasyMP4",
                 "File", "SMF", "AAC", "EasyID3", "ID3", "APEv2", "WAVE", "DSDIFF"]
+
+
+# which of the 32 openers run a loader that has a totality theorem (the theorem covers that loader, not the
+# opener's whole open-save-delete path)
+OPENER_THEOREMS = {"Musepack": ["Musepack"]}
 
 
 def openers():
@@ -295,8 +301,150 @@ def corpus(ctx):
     ctx.count("corpus-runs", n)
 
 
+# ------------------------------------------------------------------------------------------------------
+# correspondence: the Coq mirrors (coq/model/Parse_*.v, extracted) against the loaders they mirror
+MODELLED = {k: v["mirrors"] for k, v in c04_loaders.LOADERS.items()}
+MODEL_MAX = 8192          # the extracted model walks Z-indexed lists: longer inputs are cut (for both sides)
+EXC_CODES = {1: "ValueError", 2: "KeyError", 3: "TypeError", 4: "IndexError", 5: "struct.error", 6: "UnicodeError", 7: "OverflowError",
+             8: "ZeroDivisionError", 9: "AttributeError", 10: "OSError", 11: "EOFError", 12: "AssertionError", 13: "NotImplementedError",
+             14: "MutagenError", 15: "fuel"}
+
+
+def exc_class(e):
+    """the exception classes the model distinguishes (Base.Py.exc / Common.exc_name)"""
+    for cls, name in ((struct.error, "struct.error"), (UnicodeError, "UnicodeError"), (ZeroDivisionError, "ZeroDivisionError"),
+                      (OverflowError, "OverflowError"), (IndexError, "IndexError"), (KeyError, "KeyError"), (EOFError, "EOFError"),
+                      (OSError, "OSError"), (ValueError, "ValueError"), (TypeError, "TypeError"), (AttributeError, "AttributeError")):
+        if isinstance(e, cls):
+            return name
+    return type(e).__name__
+
+
+def impl_outcome(L, data, limit_s=5.0):
+    """(outcome class, canonical info or None, escape site)"""
+    import mutagen
+    signal.signal(signal.SIGALRM, _alarm)
+    signal.setitimer(signal.ITIMER_REAL, limit_s)
+    try:
+        try:
+            r = L["impl"](io.BytesIO(data))
+            return "ok", L["canon"](r, data), None
+        except mutagen.MutagenError:
+            return "MutagenError", None, None
+        except Timeout:
+            return "timeout", None, "watchdog"
+        except RecursionError as e:
+            return "RecursionError", None, site_of(e)
+        except Exception as e:
+            return exc_class(e), None, site_of(e)
+    finally:
+        signal.setitimer(signal.ITIMER_REAL, 0)
+
+
+def model_outcome(ctx, name, L, data):
+    r = ctx.model.call("c04_load", name, common.hx(data))
+    if r.startswith("ok "):
+        body = r[3:].strip()[1:-1]
+        lst = [common.zp(x) for x in body.split(",") if x]
+        return "ok", L["expect"](lst, data)
+    if r == "fuel":
+        return "timeout", None
+    if r.startswith("raise "):
+        return r[6:].split(":")[0], None
+    return r, None
+
+
+def corr_case(ctx, name, L, data, origin, state):
+    if len(data) > MODEL_MAX:
+        data = data[:MODEL_MAX]
+    key = (name, data)
+    if key in state["seen"]:
+        return
+    state["seen"].add(key)
+    io_, ic, site = impl_outcome(L, data)
+    mo, mc = model_outcome(ctx, name, L, data)
+    ctx.corr_cases += 1
+    ctx.count("corr:%s:%s" % (name, io_))
+    ctx.count("corr-origin:" + origin)
+    ctx.case((name, hashlib.blake2b(data, digest_size=8).hexdigest()),
+             {"loader": name, "origin": origin, "input": data[:64].hex(), "impl": io_, "model": mo} if ctx.corr_cases % 5003 == 0 else None)
+    if io_ not in ("ok", "MutagenError"):
+        # the implementation itself breaks the property on this input: a concrete violation, whatever the model says
+        what = "C04 %s escaped at %s" % (io_, site) if io_ != "timeout" else "C04 TIMEOUT: %s (%s)" % (site, name)
+        if what not in state["viol"]:
+            state["viol"].add(what)
+            ctx.violation("oracle", what, {"runner": "c04.load", "loader": name, "origin": origin, "type": io_, "site": site,
+                                           "input": data.hex(), "input_len": len(data)})
+    if (io_, ic) != (mo, mc):
+        state["dis"][name] = state["dis"].get(name, 0) + 1
+        if state["dis"][name] <= 3:
+            ctx.disagree("c04.load", "%s on %d bytes (%s): impl=%s model=%s" % (name, len(data), origin, (io_, ic), (mo, mc)),
+                         {"loader": name, "input": data.hex() if len(data) <= 4096 else data[:4096].hex(), "origin": origin})
+
+
+def correspondence(ctx, n):
+    """n malformed-stream cases per modelled loader (the fuzzer's own seeds()/mutate) + the targeted sweeps"""
+    sd = seeds()
+    samples = dict(sd)
+    blobs = [d for _, d in sd]
+    R = random.Random(ctx.seed * 7919 + 4)
+    state = {"seen": set(), "viol": set(), "dis": {}}
+    for name, L in c04_loaders.LOADERS.items():
+        t0 = time.time()
+        own = [(k, d) for k, d in sd if L["own"](k)]
+        for d in L["sweep"](samples):
+            corr_case(ctx, name, L, d, "sweep", state)
+        for i in range(n):
+            # mostly the loader's own samples, now and then any other sample (wrong-format input)
+            k, d = R.choice(own) if (own and R.random() < 0.85) else R.choice(sd)
+            m, kind = mutate(R, d, blobs)
+            if R.random() < 0.25:
+                m, _ = mutate(R, m, blobs)
+            corr_case(ctx, name, L, m, "fuzz", state)
+        for k, d in own:
+            corr_case(ctx, name, L, d, "sample", state)
+        ctx.notes.setdefault("corr_wall_s", {})[name] = round(time.time() - t0, 1)
+    vm_crosscheck(ctx, sd, R)
+
+
+def vm_crosscheck(ctx, sd, R):
+    """the extracted binary must agree with the kernel's own evaluator (vm_compute) on the same inputs"""
+    cases, keys = [], []
+    mods = set()
+    for name, L in c04_loaders.LOADERS.items():
+        mod, load, lst = L["coq"]
+        mods.add(mod)
+        own = [d for k, d in sd if L["own"](k)] or [b""]
+        for i in range(6):
+            d = R.choice(own)[:R.choice([0, 7, 33, 64, 120, 200])]
+            if i % 2:
+                d, _ = mutate(R, d, [d])
+                d = d[:240]
+            cases.append("c04_show %s (%s %s)" % (lst, load, common.coq_bytes(d)))
+            keys.append((name, L, d))
+    pre = ("From Coq Require Import ZArith List. Import ListNotations. Require Import Base.Py Model.Parse_base %s. Open Scope Z_scope."
+           % " ".join("Model." + m for m in sorted(mods)))
+    res, log = common.vm_shard("c04", pre, cases)
+    if res is None or len(res) != len(cases):
+        ctx.disagree("c04.vm_shard", "vm_compute shard failed to run: %s" % (log,), {})
+        return
+    for (name, L, d), r in zip(keys, res):
+        m = re.match(r"\((-?\d+), \[(.*)\]\)$", r.replace("%Z", ""))
+        ctx.vm_cases += 1
+        if not m:
+            ctx.disagree("c04.vm_shard", "cannot parse %r" % r, {})
+            return
+        code = int(m.group(1))
+        lst = [int(x) for x in m.group(2).split(";") if x.strip()]
+        vm = ("ok", L["expect"](lst, d)) if code == 0 else ("timeout" if code == 15 else EXC_CODES[code], None)
+        if vm != model_outcome(ctx, name, L, d):
+            ctx.disagree("c04.vm_shard", "extracted binary and vm_compute differ for %s on %s" % (name, d.hex()), {})
+            return
+
+
 def run(ctx):
     corpus(ctx)
+    correspondence(ctx, 6000 if ctx.thorough else 700)
     if ctx.thorough:
         fuzz(ctx, 60000, True)
     else:
@@ -306,6 +454,12 @@ def run(ctx):
 def search(ctx, broken):
     before = len(ctx.violations)
     corpus(ctx)
+    if ctx.use_model and any("c04.load" in str(b.get("obligation")) for b in broken):
+        # a loader no longer matches its mirror: a much larger malformed stream through the modelled loaders first
+        correspondence(ctx, 12000)
+        if len(ctx.violations) > before:
+            ctx.notes["search"] = "escalated correspondence stream found %d escape sites" % (len(ctx.violations) - before)
+            return
     fuzz(ctx, 20000, True)
     ctx.notes["search"] = "mutation fuzzing of all openers found %d distinct escape sites" % (len(ctx.violations) - before)
 
@@ -313,6 +467,9 @@ def search(ctx, broken):
 def replay(ctx, payload):
     d = payload.get("data", {})
     ops = openers()
+    if d.get("runner") == "c04.load":
+        o, _, _ = impl_outcome(c04_loaders.LOADERS[d["loader"]], bytes.fromhex(d["input"]))
+        return o not in ("ok", "MutagenError")
     if d.get("runner") == "c04.fuzz" and d.get("input") is not None:
         probs, _, _, _ = contract(ops[d["opener"]], bytes.fromhex(d["input"]))
         return bool(probs)
@@ -324,5 +481,9 @@ def replay(ctx, payload):
 
 
 def coverage_extra(ctx):
-    return {"families_with_theorem": [os.path.basename(p)[:-2] for p in PROP_FILES],
+    return {"families_with_theorem": sorted(MODELLED),
+            "families_without_theorem": [o for o in OPENER_NAMES if o not in OPENER_THEOREMS],
+            "opener_theorems": OPENER_THEOREMS,
+            "modelled": MODELLED,
+            "theorem_files": [os.path.basename(p)[:-2] for p in PROP_FILES],
             "openers": OPENER_NAMES}
